@@ -40,8 +40,16 @@ Step ==
   /\ LET r == Rec[l]
          C == ClsOf(r)
          sig == [i \in 0..(r.n - 1) |-> Sig(C, i)]
-         bad == {p \in (0..(r.n - 1)) \X (0..(r.n - 1)) :
-                   p[1] < p[2] /\ ~\E x \in sig[p[1]] : <<x[1], 1 - x[2]>> \in sig[p[2]]}
+         \* When every candidate is bound to exactly one polarity of every helper in use, two
+         \* candidates clash iff their signatures differ: Excl is injectivity of `sig` (n log n);
+         \* otherwise the pairs are examined one by one
+         H == {c[2] : c \in C}
+         regular == \A i \in 0..(r.n - 1) : {x[1] : x \in sig[i]} = H /\ Cardinality(sig[i]) = Cardinality(H)
+         bad == IF regular
+                THEN (IF Cardinality({sig[i] : i \in 0..(r.n - 1)}) = r.n THEN {}
+                      ELSE {CHOOSE p \in (0..(r.n - 1)) \X (0..(r.n - 1)) : p[1] < p[2] /\ sig[p[1]] = sig[p[2]]})
+                ELSE {p \in (0..(r.n - 1)) \X (0..(r.n - 1)) :
+                        p[1] < p[2] /\ ~\E x \in sig[p[1]] : <<x[1], 1 - x[2]>> \in sig[p[2]]}
      IN /\ PrintT("BEGIN|" \o ToString(r.n) \o "|1|amo")
         /\ Chk(r.n, \A c \in C : c[1] < r.n /\ c[2] < 64, "C15_StrayClause", {c \in C : ~(c[1] < r.n /\ c[2] < 64)})
         /\ Chk(r.n, bad = {}, "C15_PairNotExcludedAtSize", IF bad = {} THEN {} ELSE {CHOOSE p \in bad : TRUE})
